@@ -7,13 +7,13 @@
 
 namespace c11 {
 
-template <class Tag, class NativeImg>
+template <class Tag, class NativeImg, class DevA = DefaultDev>
 void seed_units(vh::Ctx& ctx, Seed const& s, Opts const& o, bool pairs)
 {
     auto unit = [&](const char* what, std::vector<Case> cases) {
         std::string u = std::string(s.name) + "/" + what;
         ctx.cur = u;
-        ioc::run_unit(ctx, u, [&](Emit& e) { run_cases<Tag, NativeImg>(e, s, cases, o, s.name); }, 600.0);
+        ioc::run_unit(ctx, u, [&](Emit& e) { run_cases<Tag, NativeImg, DevA>(e, s, cases, o, s.name); }, 600.0);
     };
     if (pairs) { unit("pairs", pair_deviations(s)); return; }
     std::vector<Case> all = single_deviations(s, o.all256, true), part[3];
